@@ -177,6 +177,42 @@ func c11Check(scalar, u []byte) error {
 	if !bytes.Equal(s[:], scalar) || !bytes.Equal(p[:], u) {
 		return fmt.Errorf("ScalarMult modified its inputs")
 	}
+	if bytes.Equal(u, c11BasepointCopy) {
+		if err := c11CheckBasepointIdentity(scalar, want); err != nil {
+			return err
+		}
+	}
+	return nil
+}
+
+var c11BasepointCopy = append([]byte(nil), curve25519.Basepoint...)
+
+// c11CheckBasepointIdentity passes the package's exported Basepoint itself (the same backing array,
+// not a copy of its bytes) through every entry point: a fast path keyed on the identity of an
+// exported variable is invisible to byte-equal copies.  The exported slice must stay unmodified.
+func c11CheckBasepointIdentity(scalar, want []byte) error {
+	got, err := curve25519.X25519(scalar, curve25519.Basepoint)
+	if err != nil || !bytes.Equal(got, want) {
+		return fmt.Errorf("X25519(%x, Basepoint itself) = %x/%v, want %x", scalar, got, err, want)
+	}
+	for _, fill := range []byte{0x00, 0xa5} {
+		var dst, s [32]byte
+		for i := range dst {
+			dst[i] = fill
+		}
+		copy(s[:], scalar)
+		curve25519.ScalarMult(&dst, &s, (*[32]byte)(curve25519.Basepoint))
+		if !bytes.Equal(dst[:], want) {
+			return fmt.Errorf("ScalarMult(dst pre-filled %#02x, %x, Basepoint itself) wrote %x, want %x", fill, scalar, dst, want)
+		}
+		curve25519.ScalarBaseMult(&dst, &s)
+		if !bytes.Equal(dst[:], want) {
+			return fmt.Errorf("ScalarBaseMult(%x) wrote %x, want %x", scalar, dst, want)
+		}
+	}
+	if !bytes.Equal(curve25519.Basepoint, c11BasepointCopy) {
+		return fmt.Errorf("the exported Basepoint was modified: %x", curve25519.Basepoint)
+	}
 	return nil
 }
 
@@ -280,6 +316,9 @@ func c11Special(t *rapid.T) []byte {
 // c11Perturb changes u in place and names the perturbation kind.
 func c11Perturb(t *rapid.T, u []byte) string {
 	n := rapid.IntRange(1, 4).Draw(t, "nperturb")
+	if rapid.IntRange(0, 7).Draw(t, "unperturbed") == 0 {
+		return "exact" // the distinguished value itself (for the base point: also passed by identity)
+	}
 	switch rapid.IntRange(0, 4).Draw(t, "perturb") {
 	case 0:
 		for i := 0; i < n; i++ {
